@@ -194,6 +194,8 @@ pub struct World {
     /// bit-level traces (C10): after every call the raw OwnershipBucket entries are read from storage
     pub dump: bool,
     pub dumps: Vec<String>,
+    /// full observation of very many ids: get_approved only for the touched ids (owner_of for all)
+    pub light_appr: bool,
 }
 
 /// set once by the C10 binary: traces carry the raw consecutive ownership buckets and are printed as `mkBTrace`
@@ -229,7 +231,7 @@ impl World {
         let mut w = World { e, id, fl, addrs, now: now0, now0, min_ttl, max_ttl, extra_ids: BTreeSet::new(),
                             touched: BTreeSet::new(), sample, steps: vec![], last: Obs::default(), ncalls: 0,
                             hist_approved: vec![], hist_oper: vec![],
-                            dump: BTRACE.load(std::sync::atomic::Ordering::Relaxed), dumps: vec![] };
+                            dump: BTRACE.load(std::sync::atomic::Ordering::Relaxed), dumps: vec![], light_appr: false };
         w.last = w.observe(&mut Rng::new(0));
         w
     }
@@ -283,6 +285,7 @@ impl World {
         for &i in &qids {
             let ow: Option<Address> = self.invoke("owner_of", soroban_sdk::vec![e, i.into_val(e)]);
             o.owners.push((i, ow.map(|a| self.idx(&a))));
+            if self.light_appr && !self.touched.contains(&i) { continue; }
             let ap: Option<Option<Address>> = self.invoke("get_approved", soroban_sdk::vec![e, i.into_val(e)]);
             o.appr.push((i, match ap { Some(v) => v.map(|a| self.idx(&a)), None => Some(FAIL_ADDR) }));
         }
@@ -368,7 +371,11 @@ impl World {
         }
         if let Some(r) = ret {
             self.touched.insert(r);
-            if let Call::BatchMint(_, amt) = c { self.touched.insert(r + 1 - *amt); }
+            if let Call::BatchMint(_, amt) = c {
+                self.touched.insert(r + 1 - *amt);
+                if (r + 1 - *amt) / ids_in_bucket() != r / ids_in_bucket() { out.label("cons/batch_mint/bucket-crossing"); }
+                if r / ids_in_bucket() - (r + 1 - *amt) / ids_in_bucket() >= 10 { out.label("cons/batch_mint/spanning-11-buckets"); }
+            }
         }
         let o = self.observe(rng);
         if self.dump && self.fl == Fl::Cons { let d = self.dump_buckets(o.next); self.dumps.push(d); }
@@ -544,11 +551,26 @@ impl World {
                 }
                 _ => {
                     let explicit = match p.mint_mode { 0 => false, 1 => true, _ => rng.chance(1, 2) };
+                    if explicit && p.mint_mode == 3 {
+                        // OUTSIDE the property's quantifier (separate labelled family): explicit ids in the range of the
+                        // sequential counter, existing or not - the counter meets live explicit ids, ids are re-minted
+                        return Call::MintId(to, rng.below(p.max_ids as u64 + 2) as u32);
+                    }
                     if explicit {
-                        // a fresh explicit id (never one that currently exists; may be one burned earlier)
-                        let mut id = EXPLICIT_BASE + rng.below(p.max_ids as u64) as u32;
+                        // a fresh explicit id (never one that currently exists; may be one burned earlier):
+                        // explicit-only contracts use ids anywhere (0.., 1000.., up to u32::MAX); mixed ones use 1000.. or an
+                        // id below the counter that was burned (the counter never meets an explicit id)
+                        let draw = |rng: &mut Rng| -> u32 {
+                            match (p.mint_mode, rng.below(6)) {
+                                (1, 0) | (1, 1) => rng.below(p.max_ids as u64) as u32,
+                                (1, 2) => u32::MAX - rng.below(3) as u32,
+                                (2, 0) | (2, 1) if self.last.next > 0 => rng.below(self.last.next as u64) as u32,
+                                _ => EXPLICIT_BASE + rng.below(p.max_ids as u64) as u32,
+                            }
+                        };
+                        let mut id = draw(rng);
                         let mut tries = 0;
-                        while self.last.owner(id).is_some() && tries < 50 { id = EXPLICIT_BASE + rng.below(p.max_ids as u64) as u32; tries += 1; }
+                        while self.last.owner(id).is_some() && tries < 50 { id = draw(rng); tries += 1; }
                         if self.last.owner(id).is_some() || (!self.extra_ids.contains(&id) && self.extra_ids.len() as u32 >= p.max_ids) { Call::Advance(1) } else { Call::MintId(to, id) }
                     } else if self.last.next >= p.max_ids { Call::Advance(1) } else { Call::MintSeq(to) }
                 }
